@@ -295,8 +295,10 @@ def check(prop, tier):
             os.unlink(os.path.join(REPLAYS, f))
 
     res_all = []
-    wall_budget = spec.get("wall_quick", 60) if tier == "quick" else spec.get("wall_thorough", 900)
-    deadline = t0 + wall_budget
+    # the wall budget caps the runs of a tier, not the build before them; VERIF_WALL_FACTOR stretches it (the sensitivity regression
+    # runs many checks side by side on scratch builds and must not lose runs to a busy machine)
+    wall_budget = (spec.get("wall_quick", 60) if tier == "quick" else spec.get("wall_thorough", 900)) * float(os.environ.get("VERIF_WALL_FACTOR", "1"))
+    deadline = time.time() + wall_budget
     per_job = []
     for ji, job in enumerate(spec["jobs"]):
         n = job["n_quick"] if tier == "quick" else job["n_thorough"]
